@@ -62,6 +62,8 @@ macro_rules! harness {
     };
 }
 
+pub mod c01;
+pub mod gen_c01;
 pub mod c02;
 pub mod c03;
 pub mod c04;
@@ -74,3 +76,4 @@ pub mod c10;
 pub mod c11;
 pub mod c13;
 pub mod c19;
+pub mod gen_c20;
